@@ -3,6 +3,7 @@
 from rules.common import *  # noqa: F401,F403
 from callgraph import callgraph_of
 import tables
+import re
 
 SERVE = 'serve::serve'
 LOCK = 'serve::with_commit_lock'
@@ -113,6 +114,39 @@ class Hub:
         self._plabel[key] = res
         return res
 
+    INT_RENDER_OK = ('core::fmt::rt::Argument::', 'std::fmt::Arguments::', 'std::fmt::Write::write_fmt', 'std::fmt::format',
+                     'std::string::String::with_capacity', 'std::string::String::new', 'std::iter::Iterator::', 'std::iter::IntoIterator::into_iter',
+                     'core::slice::<impl [T]>::iter', 'std::ops::Index::index', 'core::slice::<impl [T]>::len', 'core::slice::<impl [T]>::chunks',
+                     'core::slice::<impl [T]>::get')
+
+    def renders_integers_only(self, path):
+        """a crate-local fn that can only return text made of formatted integers and its own literals: every parameter is an
+        integer / integer array / integer slice, every call (nested closures included) is iteration, indexing, `String::with_capacity`
+        or the fmt machinery, and every formatted argument is an integer (no from_utf8, no char pushes, no other source)"""
+        key = ('intrender', path)
+        if key in self._plabel:
+            return self._plabel[key]
+        hb = self.F.body(path)
+        ok = hb is not None and hb.argc >= 1
+        ity = lambda ty: re.sub(r'^\[(.*?)(; *\d+)?\]$', r'\1', ty.replace('&', '').replace('mut ', '').strip()) in self.INT_TYS
+        if ok:
+            ok = all(ity(hb.local_ty(i)) for i in range(1, hb.argc + 1))
+        bodies = [hb] + ([b for k, b in self.F.bodies.items() if k.startswith(path + '::{')] if ok else [])
+        for b in bodies if ok else []:
+            for blk in b.blocks:
+                t = blk['term']
+                if t['k'] != 'call':
+                    continue
+                c = callee(t) or ''
+                if not any(c.startswith(w) for w in self.INT_RENDER_OK):
+                    ok = False
+                if c.startswith('core::fmt::rt::Argument::'):
+                    a = t['args'][0]
+                    if 'p' not in a or a['p']['proj'] or not ity(b.local_ty(a['p']['l'])):
+                        ok = False
+        self._plabel[key] = ok
+        return ok
+
     def label_origin(self, body, fl, o, depth):
         if depth > 40:
             return {OTHER}
@@ -173,6 +207,8 @@ class Hub:
                 for a in t['args']:
                     out |= self.label_operand(body, a, depth + 1, self._seen)
                 return out
+            if c in self.F.bodies and self.renders_integers_only(c):
+                return set()    # digits / hex digits of integers and the helper's own literals: no path structure
             if c in self.F.bodies:
                 # crate-local helper (a name-building function extracted by a refactor): judged from its own body, its
                 # parameters labelled from its call sites in the serve graph
@@ -281,7 +317,7 @@ class Hub:
         self._plabel[key] = res
         return res
 
-    def path_class(self, body, op):
+    def path_class(self, body, op, _raw=False):
         """'staging' (through tmp_of), 'live' (safe_join-derived, not through tmp_of), 'control' (root-derived), 'other'."""
         dos = self.deep_origins(body, op)
         kinds = set()
@@ -311,8 +347,43 @@ class Hub:
                     kinds.add('control' if lab == {ROOT} else 'live' if lab == {SAFE} or lab == {SAFE, ROOT} else 'other')
             else:
                 kinds.add('other')
+        if kinds == {'live'} and not _raw:
+            # a live path with a suffix appended to its last component (`<dst>.<pid>.copia-tmp` spelled inline) is the same
+            # thing the staging-name helper returns - when it is the very value content is created at (a conflict-copy
+            # name is built the same way but nothing is ever created there: it stays a derived live name)
+            ps = self.appended(body, op)
+            if ps and ps in self.staging_values():
+                return 'staging'
         if len(kinds) == 1:
             return list(kinds)[0]
         if not kinds:
             return 'other'
         return '+'.join(sorted(kinds))
+
+    def appended(self, body, op):
+        """identity of the suffix appends behind a path value: frozenset of (body, block) of `OsString::push` calls on the
+        path's own string (not a join)"""
+        return frozenset((bp, o.bb) for bp, o in self.deep_origins(body, op, mut_calls=True)
+                         if o.kind == 'mutcall' and o.key in ('std::ffi::OsString::push', 'std::string::String::push_str', 'std::string::String::push'))
+
+    def staging_values(self):
+        if getattr(self, '_staging', None) is None:
+            self._staging = set()
+            for b, bb, c in self.cg.call_sites(lambda c: c in tables.CONTENT_CREATORS and not c.endswith('OpenOptions::open'), within=self.graph):
+                t = b.blocks[bb]['term']
+                pos = tables.CONTENT_CREATORS[c]
+                if pos < len(t['args']) and self.path_class(b, t['args'][pos], _raw=True) == 'live':
+                    ps = self.appended(b, t['args'][pos])
+                    if ps:
+                        self._staging.add(ps)
+        return self._staging
+
+    # ---------------------------------------------------------------- the CAS read
+    def current_reads(self):
+        """callees that read the live file's current hash: the current-hash helper (found by use) and the fingerprint reader it wraps"""
+        return {c for c in (self.current_hash, 'meta::fingerprint_path') if c}
+
+    def is_current(self, os_):
+        """every value origin is the result of a current-hash read (projections / Option combinators in between are fine)"""
+        calls = [o for o in os_ if o.kind not in ('comb', 'agg')]
+        return bool(calls) and all(o.kind == 'call' and o.key in self.current_reads() for o in calls)
